@@ -35,11 +35,14 @@ RULE = ('E2 explicit-state exploration of library state: events (65: '
         'counts only with an observable consequence: the object is changed '
         'in place, then its own encoding must follow its values and every '
         'event must still give its baseline). E3 schedule '
-        'exploration: 18 harnesses of 2 or 3 real threads (incl. toggle-then-'
-        'encode against a concurrent encode), every executed line '
+        'exploration: 23 harnesses of 2 or 3 real threads (incl. toggle-then-'
+        'encode against a concurrent encode, a refused call against a served '
+        'one, and cache pressure: each thread handling 140 (thorough 300) '
+        'names never seen before, <= 1 preemption), every executed line '
         'of pamqp a scheduling point, every schedule with <= 2 (thorough 3) '
         'preemptions; oracle: each thread\'s result equals its sequential '
-        'result; the two-thread harnesses are also explored from a cold '
+        'result, and the same calls made one after the other once the '
+        'threads are done give what they gave before (post-probe); the two-thread harnesses are also explored from a cold '
         'library (fresh import before every execution, <= 1 preemption) for '
         'first-use initialisation races; same-thread re-entrancy: 8 outer '
         'encodes that reach application code (log handler of the key-'
@@ -99,12 +102,15 @@ def tasks(tier, seed):
         out += [('hist3', i) for i in core_events()]
     for h in range(len(HARNESSES)):
         bound = HARNESSES[h][3 if tier == 'thorough' else 2]
+        if bound is None:
+            continue
         for k in range(SHARDS):
             out.append(('sched', h, k, bound))
     # the same harnesses from a cold library: every execution starts from a
     # fresh import (first-use initialisation races), <= 1 preemption
     for h in range(len(HARNESSES)):
-        if h != WITNESS and len(HARNESSES[h][1]) == 2:
+        if h != WITNESS and len(HARNESSES[h][1]) == 2 and (
+                len(HARNESSES[h]) < 5 or HARNESSES[h][4].get('cold', True)):
             for k in range(COLD_SHARDS):
                 out.append(('cold', h, k, 1))
     return out
@@ -618,6 +624,65 @@ HARNESSES += [
             lambda: p.frame.marshal(p.commands.Queue.Declare(
                 queue='q', arguments={'a': 1, 'l': [2, 3]}), 1).hex()))],
      1, 2),
+]
+
+# cache pressure: each thread handles ONE input with hundreds of names /
+# integers / strings never seen before (different ones per thread), so that
+# whatever the library memoises fills up, evicts and trims while the other
+# thread does the same (bound 1: one thread is stopped anywhere, the other
+# runs to completion, the first resumes)
+N_FRESH = 140      # quick; thorough adds the same harnesses with 300
+
+
+def _fresh_table(tag, n=None):
+    n = n or N_FRESH
+    return {'%s-name-%04d' % (tag, i): (
+        70000 + i * 7 if i % 2 == 0 else '%s-value-%d' % (tag, i))
+        for i in range(n)}
+
+
+_FRESH_A, _FRESH_B = _fresh_table('a'), _fresh_table('b')
+_ENC_FRESH_A = c16events.refcodec.enc_table(_FRESH_A)
+_ENC_FRESH_B = c16events.refcodec.enc_table(_FRESH_B)
+
+
+def _digest(value):
+    import hashlib
+    return hashlib.sha256(c16events.c(value).encode()).hexdigest()
+
+
+HARNESSES += [
+    ('decode %d never-seen names || decode %d other never-seen names' % (
+        N_FRESH, N_FRESH), [
+        _call('decode.field_table(fresh A)', lambda p: _try(
+            lambda: _digest(p.decode.field_table(_ENC_FRESH_A)))),
+        _call('decode.field_table(fresh B)', lambda p: _try(
+            lambda: _digest(p.decode.field_table(_ENC_FRESH_B))))], 1, 1,
+     {'cold': False}),
+    ('encode %d never-seen names || encode %d other never-seen names' % (
+        N_FRESH, N_FRESH), [
+        _call('encode.field_table(fresh A)', lambda p: _try(
+            lambda: p.encode.field_table(_FRESH_A).hex()[-64:])),
+        _call('encode.field_table(fresh B)', lambda p: _try(
+            lambda: p.encode.field_table(_FRESH_B).hex()[-64:]))], 1, 1,
+     {'cold': False}),
+]
+_BIG_A, _BIG_B = _fresh_table('c', 300), _fresh_table('d', 300)
+_ENC_BIG_A = c16events.refcodec.enc_table(_BIG_A)
+_ENC_BIG_B = c16events.refcodec.enc_table(_BIG_B)
+HARNESSES += [     # thorough only (quick bound None)
+    ('decode 300 never-seen names || decode 300 other never-seen names', [
+        _call('decode.field_table(fresh C)', lambda p: _try(
+            lambda: _digest(p.decode.field_table(_ENC_BIG_A)))),
+        _call('decode.field_table(fresh D)', lambda p: _try(
+            lambda: _digest(p.decode.field_table(_ENC_BIG_B))))], None, 1,
+     {'cold': False}),
+    ('encode 300 never-seen names || encode 300 other never-seen names', [
+        _call('encode.field_table(fresh C)', lambda p: _try(
+            lambda: p.encode.field_table(_BIG_A).hex()[-64:])),
+        _call('encode.field_table(fresh D)', lambda p: _try(
+            lambda: p.encode.field_table(_BIG_B).hex()[-64:]))], None, 1,
+     {'cold': False}),
 ]
 
 # a thread that selects a ladder and then encodes must get THAT ladder,
